@@ -243,17 +243,17 @@ object must be the model's next action of that thread).  `siteOp` says which ele
 `Pox.C07.ops_cover`: every action the table anchors in a function is an element of that function's set. -/
 def ops : List (String × List String) := [
   ("recoco.BaseTask.start", ["append@_ready", "appendleft@_ready", "assert", "call@start", "contains@_ready", "new@ScheduleTask", "ping@_pinger", "set@_event", "write@priority"]),
-  ("recoco.Scheduler.callLater", ["call@callLater", "call@start", "new@CallLaterTask", "with@_lock", "write@_callLaterTask"]),
+  ("recoco.Scheduler.callLater", ["call@callLater", "call@start[locked]", "new@CallLaterTask[locked]", "with@_lock", "write@_callLaterTask[locked]"]),
   ("recoco.Scheduler.synchronized", ["new@Synchronizer", "write@synchronizer"]),
   ("recoco.Scheduler.schedule", ["append@_ready", "appendleft@_ready", "assert", "call@start", "contains@_ready", "new@ScheduleTask", "ping@_pinger", "set@_event"]),
   ("recoco.Scheduler.fast_schedule", ["append@_ready", "appendleft@_ready", "assert", "contains@_ready", "ping@_pinger", "set@_event"]),
-  ("recoco.Scheduler.run", ["append@_ready", "append@list", "appendleft@_ready", "assert", "call@_smudge", "call@execute", "clear@_event", "contains@_ready", "contains@_tasks", "empty@_incoming", "get@_incoming", "ping@_pinger", "pongAll@_pinger", "popleft@_ready", "put@_incoming", "raise", "remove@list", "set@_event", "wait@_event", "write@_allDone", "write@_hasQuit", "write@rv"]),
+  ("recoco.Scheduler.run", ["append@_ready", "appendleft@_ready", "assert", "call@execute", "clear@_event", "contains@_ready", "contains@_tasks", "delitem@_tasks", "empty@_incoming", "get@_incoming", "ping@_pinger", "pongAll@_pinger", "popleft@_ready", "put@_incoming", "raise", "set@_event", "setitem@_tasks", "wait@_event", "write@_allDone", "write@_hasQuit", "write@rv"]),
   ("recoco.Scheduler.cycle", ["append@_ready", "call@execute", "ping@_pinger", "popleft@_ready", "put@_incoming", "raise"]),
   ("recoco.Select.execute", ["ping@_pinger", "put@_incoming"]),
-  ("recoco.SelectHub.idle", ["append@_ready", "append@list", "appendleft@_ready", "assert", "call@_smudge", "clear@_event", "contains@_ready", "contains@_tasks", "empty@_incoming", "get@_incoming", "ping@_pinger", "pongAll@_pinger", "remove@list", "set@_event", "wait@_event", "write@rv"]),
+  ("recoco.SelectHub.idle", ["append@_ready", "appendleft@_ready", "assert", "clear@_event", "contains@_ready", "contains@_tasks", "delitem@_tasks", "empty@_incoming", "get@_incoming", "ping@_pinger", "pongAll@_pinger", "set@_event", "setitem@_tasks", "wait@_event", "write@rv"]),
   ("recoco.SelectHub.break_idle", ["ping@_pinger", "set@_event"]),
-  ("recoco.SelectHub._threadProc", ["append@_ready", "append@list", "appendleft@_ready", "assert", "call@_smudge", "contains@_ready", "empty@_incoming", "get@_incoming", "ping@_pinger", "pongAll@_pinger", "remove@list", "set@_event", "write@rv"]),
-  ("recoco.SelectHub._select", ["append@_ready", "append@list", "appendleft@_ready", "assert", "call@_smudge", "contains@_ready", "empty@_incoming", "get@_incoming", "ping@_pinger", "pongAll@_pinger", "remove@list", "set@_event", "write@rv"]),
+  ("recoco.SelectHub._threadProc", ["append@_ready", "appendleft@_ready", "assert", "contains@_ready", "empty@_incoming", "get@_incoming", "ping@_pinger", "pongAll@_pinger", "set@_event", "write@rv"]),
+  ("recoco.SelectHub._select", ["append@_ready", "appendleft@_ready", "assert", "contains@_ready", "empty@_incoming", "get@_incoming", "ping@_pinger", "pongAll@_pinger", "set@_event", "write@rv"]),
   ("recoco.SelectHub.registerSelect", ["ping@_pinger", "put@_incoming"]),
   ("recoco.SelectHub._cycle", ["ping@_pinger"]),
   ("recoco.SelectHub._return", ["append@_ready", "appendleft@_ready", "assert", "contains@_ready", "ping@_pinger", "set@_event", "write@rv"]),
@@ -275,12 +275,13 @@ def ops : List (String × List String) := [
   ("core.POXCore.raiseLater", ["call@callLater"]),
   ("util.make_pinger.PipePinger.ping", ["write@os"]),
   ("util.make_pinger.PipePinger.pongAll", ["call@pong_all"]),
-  ("util.make_pinger.PipePinger.pong_all", ["read@os"])]
+  ("util.make_pinger.PipePinger.pong_all", ["read@os"]),
+  ("<unlisted>", ["recoco.Scheduler.__init__: write@_callLaterTask write@_lock write@_ready", "recoco.SelectHub.__init__: write@_event write@_incoming write@_pinger", "recoco.Synchronizer.__init__: write@syncer"])]
 
 /-- the element of `ops` a model action is; `none` = a plain read / a dynamic call / select -/
 def siteOp : Site → Option String
   | .cl_lock | .cl_unlock => some "with@_lock"
-  | .cl_create => some "new@CallLaterTask"
+  | .cl_create => some "new@CallLaterTask[locked]"
   | .clt_append => some "append@_calls"
   | .fs_append | .cyc_append => some "append@_ready"
   | .clt_ping | .cy_ping => some "ping@_pinger"
@@ -311,5 +312,41 @@ def opsCover : Bool :=
       | some o => (ops.find? (·.1 = f)).any fun (_, els) => els.contains o
       | none => true
     | _ => true
+
+/-- elements of `ops` that are NOT an action of `Model/Handoff.lean`, each with the reason.  `Pox.C07.ops_accounted`: every
+    element of every entry point's set is a model action (`siteOp`) or listed here — so a NEW operation on shared state does not
+    only break `ops_agree` (any change does) but has to be put in one of the two places, under review. -/
+def ignored : List (String × String) := [
+  -- the cooperative Lock: modelled in Model/CoopLock.lean (sequential; compared operation by operation), not as Handoff actions
+  ("add@_waiting", "CoopLock"), ("pop@_waiting", "CoopLock"), ("write@_locked", "CoopLock"), ("write@_waiting", "CoopLock"),
+  ("raise", "CoopLock: release of a free lock; Scheduler.cycle: a task yielded None (not modelled)"),
+  -- part of a modelled action, or on an object no other thread can see yet, or thread-local
+  ("write@_callLaterTask[locked]", "the store of cl_create, under the scheduler's lock"),
+  ("write@syncer", "the store of se_create; the Synchronizer belongs to one thread"),
+  ("write@enter", "nesting depth of a thread's own Synchronizer"),
+  ("write@synchronizer", "thread-local storage"), ("new@Synchronizer", "thread-local object"),
+  ("write@inlock", "SyncTask under construction"), ("write@outlock", "SyncTask under construction"), ("new@Lock", "SyncTask under construction"),
+  ("write@_calls", "CallLaterTask under construction"), ("write@_pinger", "CallLaterTask under construction"),
+  ("new@Select", "the CallLaterTask's `yield Select(...)`: its registration is rs_put"),
+  ("write@rv", "a task's result slot, read by that task only"), ("write@priority", "set before the task is shared"),
+  -- control transfers (dynamic dispatch: the callee is another entry point or a task), no effect of their own
+  ("call@start", "BaseTask.start / Timer.start"), ("call@start[locked]", "the CallLaterTask is started under the scheduler's lock"),
+  ("call@callLater", "Scheduler.callLater / CallLaterTask.callLater"), ("call@execute", "task slice / blocking operation"),
+  ("call@__init__", "base-class constructor"), ("call@pong_all", "PipePinger / SocketPinger"), ("assert", "fs_assert is its `in`"),
+  ("yield", "end of a slice"),
+  -- the hub's table of parked tasks: touched only by the one thread that runs _select
+  ("contains@_tasks", "hub table"), ("setitem@_tasks", "hub table"), ("delitem@_tasks", "hub table"),
+  -- the pinger's pipe: modelled as byte counters (hubPipe / cltPipe), compared with the real PipePinger
+  ("write@os", "os.write of one byte = ping"), ("read@os", "os.read of up to 1024 bytes = pongAll"),
+  -- not modelled (C06's territory)
+  ("write@_hasQuit", "quit"), ("write@_allDone", "quit")]
+
+def modelledOps : List String := allSites.filterMap siteOp
+
+/-- every element of every entry point's set is a model action or explicitly ignored; and no stale entry in `ignored` -/
+def opsAccounted : Bool :=
+  (ops.all fun (f, els) => f = "<unlisted>" || els.all fun e => modelledOps.contains e || ignored.any (·.1 = e)) &&
+  (ignored.all fun (e, _) => ops.any fun (_, els) => els.contains e) &&
+  (modelledOps.all fun e => ops.any fun (_, els) => els.contains e)
 
 end Pox.HandoffSites
